@@ -219,6 +219,41 @@ func CheckRun(sc *Scenario, o *Outcome) ([]Diff, *RefInfo) {
 			}
 		}
 	}
+	// C05, Paris mode: every probe has its own sequence number, so a SYN-ACK / RST-ACK names the probe it answers.
+	// If the reply a destination hop was timed with (identified by its read instant) answers another probe than
+	// the hop's own, the RTT was measured against a different probe's send time.
+	if sc.Variant == "tcp-paris" {
+		for _, h := range hops {
+			if h == nil || !h.IsDest || len(h.IPAddress) == 0 {
+				continue
+			}
+			st, ok := info.SendAt[h.TTL]
+			if !ok {
+				continue
+			}
+			var own, other *Event
+			for _, e := range o.Wire.Reads(0) {
+				tg := e.Tag
+				if tg.Class != "genuine" || tg.Flow != info.RunFlow || !isDirectTCP(tg.Form) {
+					continue
+				}
+				got := time.Duration(h.RTT * float64(time.Millisecond))
+				if d := (e.At - st) - got; d > -2*time.Microsecond && d < 2*time.Microsecond {
+					ev := e
+					// a bare RST carries no acknowledgement number: it names no probe and may explain any hop
+					if tg.CausedBy == h.TTL || tg.Form == "rst" {
+						own = &ev
+					} else if other == nil {
+						other = &ev
+					}
+				}
+			}
+			// only when no reply to the hop's own probe explains the value
+			if own == nil && other != nil {
+				ds = append(ds, Diff{"C05", "rtt-against-other-probe", fmt.Sprintf("hop TTL %d RTT %.3f ms was measured from the send of probe %d to the arrival (%v) of reply #%d, which answers probe %d (its ack names that probe's sequence number)", h.TTL, h.RTT, h.TTL, other.At, other.Tag.ID, other.Tag.CausedBy)})
+			}
+		}
+	}
 	// any must-reject packet that was read and whose address shows up is already caught (poison);
 	// C02: genuine replies that arrived inside the listening budget must have been read
 	ds = append(ds, checkMustRead(sc, o, info)...)
@@ -362,6 +397,9 @@ func CheckEmission(sc *Scenario, o *Outcome) []Diff {
 		prev = e
 	}
 	seenDest := o.Run != nil && len(o.Run.Hops) > 0 && o.Run.Hops[len(o.Run.Hops)-1] != nil && o.Run.Hops[len(o.Run.Hops)-1].IsDest
+	for _, m := range w.BufMutated {
+		add("buffer-reused-during-write", "%s", m)
+	}
 	if after > 1 && seenDest {
 		add("send-after-dest", "%d probes emitted (strictly, on the virtual clock) after the instant the first destination reply was returned (%v); one in flight is allowed", after, firstDestRead)
 	}
